@@ -213,10 +213,20 @@ def wire_cases(tier):
     return [Case("w%d" % i, [c], {"keep_prefix": 0}) for i, c in enumerate(cs)]
 
 
+def queued_close_monitor(case, il, sl):
+    import refmon, monitors
+    v = monitor(case, il, sl)
+    if v:
+        return v
+    return monitors.queued_before_close(refmon.Trace(case, il), "c18-discarded-at-close")
+
+
 def suites(tier, seed):
     import passlog
     return [
-        passlog.suite("loop-passes", "bp", lambda: gen_e2e(tier, seed), "the stall-e2e cases"),
+        Suite("close-behind-queued-data", "machine", lambda: __import__("machgen").close_behind_queued_cases(Rng(seed + 17)), monitor=queued_close_monitor, nontrivial=lambda c, il: True, canon=__import__("machgen").canon_nondet, exhaustive=True,
+              rule="1-5 submissions waiting in one or two channels' queues - not yet taken by the I/O thread; channels polled, or deregistered because of the high-water mark - when the client's Connection.Close is taken off channel 0's queue: everything accepted before close() was requested is on the wire ahead of the Close, nothing is discarded silently (finding D17)"),
+                passlog.suite("loop-passes", "bp", lambda: gen_e2e(tier, seed), "the stall-e2e cases"),
         Suite("water-mark-boundaries", "machine", lambda: __import__("machgen").water_mark_cases(Rng(seed + 18)), monitor=__import__("props.c01", fromlist=["x"]).monitor, nontrivial=lambda c, il: True, canon=__import__("machgen").canon_nondet, exhaustive=True,
               rule="queue entries whose sizes add up to the high-water mark exactly / one byte less / one byte more (2, 3, 5 frames of 5-7 queued): one handler run takes the whole queue whatever is buffered; everything reaches the wire once, in order"),
         Suite("throttle-sessions", "machine", lambda: gen(tier, seed), monitor=monitor, nontrivial=nontrivial, canon=mg.canon_nondet, candidate_ok=mg.candidate_ok,
